@@ -245,6 +245,23 @@ func (f *c09Fn) Call(idx ...int) string {
 	return b.String()
 }
 
+// CallObjs builds the call of f on arbitrary objects (pool or constructed).
+func (f *c09Fn) CallObjs(objs ...c09Obj) string {
+	var b strings.Builder
+	b.WriteByte('(')
+	b.WriteString(f.Head)
+	for i, o := range objs {
+		b.WriteByte(' ')
+		if f.skip(i) {
+			b.WriteString(o.Form)
+		} else {
+			b.WriteString(o.Expr)
+		}
+	}
+	b.WriteByte(')')
+	return b.String()
+}
+
 func c09Types(idx ...int) string {
 	if len(idx) == 0 {
 		return "-"
